@@ -109,7 +109,7 @@ def run_tlc(module: str, cfg: str | None = None, *, work: str, env: dict | None 
     on timeout or (when check) on any TLC error that is not an invariant/property violation."""
     import uuid
     meta = os.path.join(work, "meta_%s_%s" % (module, uuid.uuid4().hex[:12]))
-    cmd = ["java", "-XX:+UseParallelGC", "-Xmx" + heap, "-cp", TLA_CP, "tlc2.TLC",
+    cmd = ["java", "-XX:+UseParallelGC", "-Xmx" + heap, "-Xss256m", "-cp", TLA_CP, "tlc2.TLC",
            "-workers", str(workers), "-metadir", meta, "-noGenerateSpecTE"]
     if cfg:
         cmd += ["-config", cfg]
